@@ -967,7 +967,15 @@ impl OptionsBuilder {
     #[inline(always)]
     #[allow(clippy::if_same_then_else, clippy::needless_bool)] // reason="more logical"
     pub const fn is_valid(&self) -> bool {
-        if !is_valid_ascii(self.exponent) {
+        let min_digits = unwrap_or_zero_usize(self.min_significant_digits);
+        let max_digits = unwrap_or_max_usize(self.max_significant_digits);
+        if max_digits < min_digits {
+            false
+        } else if unwrap_or_zero_i32(self.negative_exponent_break) > 0 {
+            false
+        } else if unwrap_or_zero_i32(self.positive_exponent_break) < 0 {
+            false
+        } else if !is_valid_ascii(self.exponent) {
             false
         } else if !is_valid_ascii(self.decimal_point) {
             false
